@@ -7,7 +7,7 @@ class Prop(PropBase):
     LEAN_MODULES = ["Tpp.Props.C19"]
     REQUIRED = ["Tpp.Props.C19." + n for n in (
         "C19_index", "C19_range", "C19_components_roundtrip", "C19_injective", "C19_surjective",
-        "C19_grey", "C19_wire_high", "C19_wire_grey")]
+        "C19_grey", "C19_streamed", "C19_wire_high", "C19_wire_grey")]
     RULE = ("exhaustive: all 216 component triples in 0..5 and all 24 shades (property domain); for the tie also all "
             "256 raw palette values through the component extractors, all 256 greyscale inputs, component triples "
             "up to 255 (sampled), and every high/greyscale colour written as foreground and as background through a "
@@ -60,4 +60,15 @@ class Prop(PropBase):
                     d = "5 100 0 0 0 9 0 0 %d %d 0 0 %d %d %d %d" % ((kind, v) + e2)
                     cs.append(Case("T 0 ; we %s ; we %s ; we %s ; we %s" % (a, b, c, d), sweep="wire-effect-transitions",
                                    cfgs=["%d 1 %d 0 5 2" % (k % 3, k % 6)]))
+        # the streamed form (operator<<) of every palette colour, low colour and a few true colours, in 12 stream states
+        states = [0, 1, 2, 4, 8, 16, 17, 32, 33, 65, 128 + 4, 1 + 4 + 16 + 64 + 128]
+        for st in states:
+            for v in range(16, 232):
+                cs.append(Case("Q 1 %d 0 0 %d" % (v, st), sweep="streamed-form"))
+            for v in range(232, 256):
+                cs.append(Case("Q 2 %d 0 0 %d" % (v, st), sweep="streamed-form"))
+            for v in list(range(0, 12)) + [255]:
+                cs.append(Case("Q 0 %d 0 0 %d" % (v, st), sweep="streamed-form", oracle=False))
+            for (r_, g_, b_) in ((0, 0, 0), (255, 255, 255), (10, 171, 205), (100, 200, 9)):
+                cs.append(Case("Q 3 %d %d %d %d" % (r_, g_, b_, st), sweep="streamed-form", oracle=False))
         return cs
